@@ -172,8 +172,9 @@ static int ref_lu(int_t n, lc *M, int_t *piv)
 static void ref_solve(int_t n, const lc *LU, const int_t *piv, lc *b)
 {
     int_t i, k;
-    for (k = 0; k < n; ++k) { if (piv[k] != k) { lc t = b[k]; b[k] = b[piv[k]]; b[piv[k]] = t; }
-	for (i = k + 1; i < n; ++i) b[i] -= LU[i + (long) k * n] * b[k]; }
+    /* ref_lu swaps whole rows (LAPACK style): apply all interchanges first, then substitute */
+    for (k = 0; k < n; ++k) if (piv[k] != k) { lc t = b[k]; b[k] = b[piv[k]]; b[piv[k]] = t; }
+    for (k = 0; k < n; ++k) for (i = k + 1; i < n; ++i) b[i] -= LU[i + (long) k * n] * b[k];
     for (k = n - 1; k >= 0; --k) { b[k] /= LU[k + (long) k * n];
 	for (i = 0; i < k; ++i) b[i] -= LU[i + (long) k * n] * b[k]; }
 }
